@@ -12,7 +12,7 @@ def gen_line(rng, regdefs):
     if k < 0.12:
         return rng.choice(["", " ", "   ", "\t"])
     if k < 0.25:
-        return "".join(rng.choice("abAB1 .;-xyz") for _ in range(rng.randint(1, 14)))
+        return "".join(rng.choice("abAB1 .;-xyz\r\x0c") for _ in range(rng.randint(1, 14)))
     r = rng.choice(regdefs)
     from cfinterface.components.line import Line
     from cfinterface.components.literalfield import LiteralField
@@ -95,8 +95,8 @@ class CHECK(Check):
             return "RegisterFile.read raised %s" % obs["raised"]
         if obs["placeholder"] != [-1, ""]:
             return "leading placeholder element missing"
-        lines = io.StringIO(case["content"], newline="").readlines() if False else case["content"].splitlines(keepends=True)
-        # str.splitlines also splits on \r, \x0b, \x0c, \x1c-\x1e, \x85,  ,  : the generators never emit those
+        from .c13 import nl_lines
+        lines = nl_lines(case["content"])
         elems = obs["elems"]
         if len(elems) != len(lines):
             return "%d elements for %d lines" % (len(elems), len(lines))
@@ -132,7 +132,8 @@ class CHECK(Check):
         return re.sub(r"[0-9]+", "#", why)
 
     def shrink(self, case):
-        lines = case["content"].splitlines(keepends=True)
+        from .c13 import nl_lines
+        lines = nl_lines(case["content"])
         if len(lines) > 1:
             for i in range(len(lines)):
                 c = dict(case)
